@@ -1,12 +1,23 @@
 ------------------------------ MODULE GenValues ------------------------------
 (* Stimuli come from the specification: the boundary operand sets for every
    integer width are defined here and written by TLC; the recorder reads them.
-   Line format: <<w, s, tier, <<sign, limbs...>>>>  (tier 0 = core set used by
-   the quick tier, 1 = additional values of the full set). *)
+   Line format: w s tier <<sign, limbs...>>   (tier 0 = small core set for binary
+   operand pairs in the quick tier; 1 = larger core; 2 = full set, one value
+   triple per bit position). *)
 EXTENDS BigInt, TLC, IOUtils, CSV, FiniteSets
 
 Out == IOEnv.OUT
 Widths == {8, 16, 32, 64, 128}
+
+Core0(w, s) ==
+    LET mx == MaxOf(w, s)  mn == MinOf(w, s)  h == w \div 2
+        pats == {Mk(FALSE, [j \in 1..((w + 14) \div 15) |-> IF j % 2 = 1 THEN 21845 ELSE 10922])}
+        base == {Zero, One, FromInt(2), FromInt(-1), FromInt(-2),
+                 mx, Sub(mx, One), mn, Add(mn, One),
+                 Pow2(h), Sub(Pow2(h), One), Add(Pow2(h), One), Neg(Pow2(h)), Neg(Add(Pow2(h), One)),
+                 Pow2(w - 2), Neg(Pow2(w - 2)),
+                 ISqrt(mx), Add(ISqrt(mx), One), Neg(Add(ISqrt(mx), One))}
+    IN {x \in base \cup {Wrap(p, w, s) : p \in pats} : InRange(x, w, s)}
 
 Core(w, s) ==
     LET mx == MaxOf(w, s)  mn == MinOf(w, s)  h == w \div 2
@@ -31,8 +42,10 @@ VARIABLE done
 Init == done = FALSE
 Next == /\ ~done
         /\ \A w \in Widths, s \in {0, 1} :
-              /\ \A x \in Core(w, s = 1) : CSVWrite("%1$s %2$s 0 %3$s", <<w, s, Enc(x)>>, Out)
-              /\ \A x \in Full(w, s = 1) \ Core(w, s = 1) : CSVWrite("%1$s %2$s 1 %3$s", <<w, s, Enc(x)>>, Out)
+              /\ \A x \in Core0(w, s = 1) : CSVWrite("%1$s %2$s 0 %3$s", <<w, s, Enc(x)>>, Out)
+              /\ \A x \in Core(w, s = 1) \ Core0(w, s = 1) : CSVWrite("%1$s %2$s 1 %3$s", <<w, s, Enc(x)>>, Out)
+              /\ \A x \in Full(w, s = 1) \ (Core(w, s = 1) \cup Core0(w, s = 1)) :
+                     CSVWrite("%1$s %2$s 2 %3$s", <<w, s, Enc(x)>>, Out)
         /\ done' = TRUE
 Spec == Init /\ [][Next]_done
 =============================================================================
